@@ -82,6 +82,11 @@ func (g *Gen) text() string {
 	if g.O.Text != nil {
 		return g.O.Text(g.T)
 	}
+	if rapid.IntRange(0, 11).Draw(g.T, "special-text") == 0 {
+		// now and then a text with characters the string writers treat on their own
+		return "t " + rapid.SampledFrom([]string{"vt\vx", "bs\bx", "ff\fx", "so\x0ex", "gs\x1dx", "rs\x1ex", "us\x1fx", "del\x7fx", "ls\u2028x", "ps\u2029x", "q\"x", "b\\x", "b\\nx", "tab\tx", "nl\nx", "cr\rx",
+			"<a href='x'>&amp;</a>", "é日😀", "\ufffdx", "x\x01\x02\x03"}).Draw(g.T, "special")
+	}
 	n := rapid.IntRange(1, 3).Draw(g.T, "words")
 	var ws []string
 	for i := 0; i < n; i++ {
